@@ -27,6 +27,18 @@ int main(int argc, char **argv) {
   if (argc < 2) { printf("usage: replay <inputs>\n"); return 2; }
   auto in = replay_io::load(argv[1]);
   auto U = [&](const char *k) { return (size_t)replay_io::u64(in[k]); };
+  if (in.count("RESTART") && U("RESTART")) {      // ID3: ids handed out by connect() before and after stop() + start() on the REAL engine (real epoll/eventfd, no sockets needed)
+    TransportConfig c2; c2.enableHighResolutionTimers = false; TcpEngine e2(c2);
+    if (!e2.start().isOk()) { printf("REPLAY-SKIP: engine does not start here\n"); return 0; }
+    auto a = e2.connect("127.0.0.1", 9, TlsMode::None); auto b = e2.connect("127.0.0.1", 9, TlsMode::None);
+    e2.stop();
+    if (!e2.start().isOk()) { printf("REPLAY-SKIP: engine does not restart here\n"); return 0; }
+    auto c = e2.connect("127.0.0.1", 9, TlsMode::None);
+    e2.stop();
+    if (!a.isOk() || !b.isOk() || !c.isOk()) replay_io::fail("connect() refused");
+    if (!(a.value() < b.value() && b.value() < c.value())) replay_io::fail("ID3 ids " + std::to_string(a.value()) + ", " + std::to_string(b.value()) + " before stop()+start(), then " + std::to_string(c.value()) + ": an identifier is reused within one transport");
+    replay_io::ok("ID3 ids strictly increase across stop() + start()"); return 0;
+  }
   size_t NS = U("NS"), NL = U("NL"), NCONN = U("NCONN"), HASCB = U("HASCB"), SSLMASK = U("SSLMASK");
   if (NS > 3) NS = 3; if (NL > 1) NL = 1; if (NCONN > 2) NCONN = 2;
   TransportConfig cfg; cfg.enableHighResolutionTimers = false;
